@@ -468,6 +468,21 @@ def c(ck: Check) -> None:
         so = next((k.value for k in cc.keywords if k.arg == "seeds_only"), None)
         if so is not None and not is_false(so):
             probs.append("sets requested with seeds_only (no sets are computed)")
+        # the computation is skipped only for an empty list of seeds (`([], [])` is the answer for no seed, and for nothing else)
+        if isinstance(cs, ast.Name):
+            t_ = f"len({cs.id})"
+            tr_ = logic.Translator(lambda e: text(e), numeric={t_})
+            fs_ = []
+            for test, pol, b in fm.facts(fm.cfgn(cc)):
+                if any(isinstance(y, ast.Name) and y.id == cs.id for y in ast.walk(test)):
+                    ff = tr_.f(test)
+                    fs_.append(ff if pol else logic.Not(ff))
+            try:
+                if fs_ and not logic.implies(logic.Lt("0", t_), logic.And(*fs_)):
+                    probs.append(f"the sets are computed only under `{logic.show(logic.And(*fs_))[:60]}`: a node with seeds outside that "
+                                 f"condition reports no attractor set for them")
+            except logic.TooBig:
+                pass
     st = [e for e in fm.field_events() if e.kind == "store" and e.field == "attractor_sets"]
     def second_component(e) -> bool:
         v = e.value
